@@ -17,9 +17,9 @@ EXPECT_ENTERED = ['Envelope.parse', 'Envelope._merge_payloads',
                   'Envelope.flatten', 'Envelope.copy', 'Envelope.encode_7bit']
 BOUNDS = {
     'quick': 'every body of n<=4 arbitrary bytes (NUL, lone CR, leading blank '
-             'or white-space-only lines, dot lines, 8-bit) behind each of 10 '
+             'or white-space-only lines, dot lines, 8-bit) behind each of 12 '
              'well-formed header blocks (single field, folded value, duplicate '
-             'names, 8-bit value, LF line ends, Content-Transfer-Encoding '
+             'names, lines of exactly 77 / 78 octets, 8-bit value, LF line ends, Content-Transfer-Encoding '
              'present), separated by CRLF CRLF or LF LF: parse + flatten, '
              'copy(), pickle round trip, re-parse of the flattened output; '
              'encode_7bit() without encoder; 14 malformed header blocks (no '
@@ -58,6 +58,9 @@ HEADERS = [
     b'content-transfer-encoding: 8BIT\r\nSubject: x',
     b'Content-Type: text/plain; charset=utf-8\r\n'
     b'Content-Transfer-Encoding: Binary',
+    # physical lines of exactly 78 and 77 octets (the longest allowed)
+    b'X-Long: ' + (b'word ' * 13) + b'words' + b'\r\nSubject: ' + b'a' * 68,
+    b'Subject: short\r\n ' + (b'cont ' * 15) + b'z',
 ]
 # not well-formed header blocks (weaker claim: nothing raises, the bytes
 # behind the first blank line stay at the end of the flattened message)
@@ -88,7 +91,7 @@ def cells(tier):
     n = 4 if tier == 'quick' else 6
     for h in range(len(HEADERS)):
         for lf in (0, 1):
-            if lf and h in (3, 5, 6, 8, 9):
+            if lf and h in (3, 5, 6, 8, 9, 11):
                 continue
             out.append({'kind': 'body', 'h': h, 'lf': lf,
                         'n': n if h < 2 else n - 1})
